@@ -430,7 +430,7 @@ PROPS = {
     },
     "C10": {
         "harness": "c10", "driver": "c10",
-        "lean_modules": ["BleveModel.Props.C10"],
+        "lean_modules": ["BleveModel.Props.C10", "BleveModel.Props.C10Ranges"],
         "rule": ("in-memory scorch and upsidedown indexes of 5-40 documents (keyword tags single/multi-valued/missing/duplicated, "
                  "numeric and date fields, updates and deletes), queries (match-all, term, disjunction, match-none), requests with "
                  "random Size/From/Sort (incl. sorting on a facet field) and 1-3 facets (terms with size below/at/above the bucket "
